@@ -21,8 +21,10 @@
    handle variable and registers are merged with the adjacent shared access: no other thread reads
    them.  Convention: a handle variable stops referring to its block at its atomic decrement (it is
    [pend]ing from then on); the clone / the assigned source is held in [tmp] until it is stored.
-   RefCount::Ptr performs no plain read before its atomic operations; the model's extra reads are
-   harmless supersets of its accesses.  A schedule is a list of thread ids, chosen by the adversary.
+   RefCount::Ptr performs no plain read before its atomic operations, and Variant::operator= skips a
+   self-assignment altogether; the model's extra accesses are harmless supersets of theirs.  The
+   in-place modification is one step: once `ref == 1` was read by the only holder, no other thread can
+   obtain a handle (handles never travel between threads), which is what [jclaim] in RcConcProofs states.  A schedule is a list of thread ids, chosen by the adversary.
 
    Monitors: every access to a released block is a fault (CUaf); releasing twice is a fault
    (CDouble); releasing a block while any handle variable or in-flight handle of any thread refers to
